@@ -91,8 +91,8 @@ Elem(words, i, pos, nval, dashed, remAsVal) ==
       IF w[pos] = Dash THEN El("undef", 0, <<>>, i, pos, FALSE, dashed)
       ELSE IF pos = Len(w) THEN El("short", w[pos], <<>>, i + 1, 0, FALSE, dashed)
       ELSE El("short", w[pos], <<>>, i, pos + 1, FALSE, dashed)
+   ELSE IF Len(w) = 1 /\ w[1] \in CtrlChars THEN El("undef", 0, <<>>, i, 0, FALSE, dashed)   \* also after "--" (which only covers dashes)
    ELSE IF dashed THEN El("val", 0, w, i + 1, 0, FALSE, dashed)
-   ELSE IF Len(w) = 1 /\ w[1] \in CtrlChars THEN El("undef", 0, <<>>, i, 0, FALSE, dashed)
    ELSE IF Len(w) = 0 \/ w[1] # Dash THEN El("val", 0, w, i + 1, 0, FALSE, dashed)
    ELSE IF Len(w) = 1 THEN El("err", 0, <<>>, i, 0, FALSE, dashed)             \* single dash
    ELSE IF w[2] = Dash THEN
